@@ -47,6 +47,7 @@ type ClusterOpts struct {
 	Alloc              bool // generate serviceAllocation blocks
 	NativeBGP          bool // only what native mode accepts (v4, legacy communities)
 	Extra              bool // communities CRs, BFD profiles
+	Overlap            bool // occasionally add a prefix that covers other pools' addresses: such a configuration must be rejected
 }
 
 var NsNames = []string{"ns0", "ns1", "ns2"}
@@ -97,6 +98,18 @@ func GenPools(rt *rapid.T, o ClusterOpts) []PoolSpec {
 			p.Alloc = a
 		}
 		pools = append(pools, p)
+	}
+	if o.Overlap && len(pools) > 1 && rapid.IntRange(0, 14).Draw(rt, "overlap") == 0 {
+		cover := rapid.SampledFrom([]string{"10.0.0.0/24", "10.0.0.0/22", "10.0.0.1-10.0.2.255", "fc00::/120", "fc00::/112"}).Draw(rt, "cover")
+		if o.NativeBGP {
+			cover = "10.0.0.0/22"
+		}
+		j := rapid.IntRange(0, len(pools)-1).Draw(rt, "coverPool")
+		if rapid.Bool().Draw(rt, "coverFirst") {
+			pools[j].Addresses = append([]string{cover}, pools[j].Addresses...)
+		} else {
+			pools[j].Addresses = append(append([]string(nil), pools[j].Addresses...), cover)
+		}
 	}
 	return pools
 }
